@@ -601,3 +601,13 @@ val m03_step : m03 -> event -> m03 option
 val m03_run : m03 -> event list -> m03 option
 
 val chk_C03 : event list -> bool
+
+type m14 = { qd : unit map0; qh : aid map0 }
+
+val m14_init : m14
+
+val m14_step : m14 -> event -> m14 option
+
+val m14_run : m14 -> event list -> m14 option
+
+val chk_C14 : event list -> bool
